@@ -64,6 +64,8 @@ PROPS["C02"] = {
     ],
     "floors": {"any": {"queries": 100000, "queries_equal": 10000, "redundancy_events": 10, "symmetry_events": 10, "histories_with_effective_union": 500}},
 }
+for _p in ("C01", "C02"):
+    PROPS[_p]["floors"]["any"]["family_self_reference_with_symmetry"] = 300
 PROPS["C08"] = {
     "rule": "cases: (mixed) online-generated histories of 8-30 public calls over LSym (add_expr/add_syn_expr of generated terms incl. permuted copies, "
             "add of hand-built nodes over earlier handles with random bijective slot maps, unions incl. re-invoked handles, rewrite iterations with a random "
@@ -146,7 +148,7 @@ PROPS["C17"] = {
             "print/parse must round-trip, internally invented (non-numeric) slots must be new to the user. The hygiene lane replays C11-style histories with user slots named f0..f9 "
             "and $0..$9 against a neutral naming. Non-trivial = distinct interleaving (hash of its log) containing all event kinds.",
     "assumptions": ["numeric names inside stored e-nodes are canonical shape names of bound slots; their harmlessness is judged by the behavioural hygiene lane"],
-    "quick": [{"variant": "default", "cases": 10000, "params": {"len": 200}, "timeout": 600}],
+    "quick": [{"variant": "default", "cases": 24000, "params": {"len": 200}, "timeout": 600}],
     "thorough": [{"variant": "default", "cases": 300000, "params": {"len": 300}, "timeout": 3000}],
     "floors": {"any": {"events": 100000, "fresh_calls": 10000, "names_recorded": 50000}},
 }
@@ -156,7 +158,7 @@ PROPS["C18"] = {
             "bracket flips, splicing and random characters are given to RecExpr/Pattern/MultiPattern::parse: no panic, Ok values have as many children as their operator takes and "
             "are stable under their own print/parse. Payloads obey the statement's side condition. Non-trivial = distinct corpus (hash).",
     "assumptions": ["payloads containing '==' or ',' are excluded from multi-patterns (they do not print unambiguously there)"],
-    "quick": [{"variant": "default", "cases": 30000, "timeout": 600}],
+    "quick": [{"variant": "default", "cases": 80000, "timeout": 600}],
     "thorough": [{"variant": "default", "cases": 800000, "timeout": 3000}, {"variant": "checks", "cases": 100000, "timeout": 3000}],
     "floors": {"any": {"term_roundtrips": 10000, "pattern_roundtrips": 10000, "subst_patterns": 1000, "multipattern_roundtrips": 5000, "arbitrary_texts": 100000, "arbitrary_accepted": 5000}},
 }
@@ -207,7 +209,7 @@ PROPS["C06"] = {
     "assumptions": ["the own least fix-point uses eg.enodes and the same cost function; 'new slot' = its printed name occurs nowhere in the e-graph or the user alphabet before extraction"],
     "quick": [{"variant": "default", "cases": 4500, "timeout": 600}, {"variant": "checks", "cases": 1500, "timeout": 600}],
     "thorough": [{"variant": "default", "cases": 1600000, "timeout": 3000}, {"variant": "checks", "cases": 240000, "timeout": 3000}, {"variant": "explanations", "cases": 80000, "timeout": 3000}],
-    "floors": {"any": {"extractions": 30000, "egraphs_with_cyclic_class": 200, "enodes_with_redundant_slots": 500, "queries_with_cost_choice": 5000}},
+    "floors": {"any": {"extractions": 30000, "egraphs_with_cyclic_class": 200, "enodes_with_redundant_slots": 500, "queries_with_cost_choice": 5000, "cost_race_egraphs": 500}},
 }
 PROPS["C05"] = {
     "rule": "cases: an e-graph reached by a generated history (half with a rewrite iteration), 6 single patterns (abstractions of inserted terms with shared variables for equal subterms, and blind random "
@@ -217,7 +219,7 @@ PROPS["C05"] = {
     "assumptions": ["instantiation uses only EGraph::lookup, so 'represented without inserting' is decided by the crate's own lookup, cross-checked by C09"],
     "quick": [{"variant": "default", "cases": 160000, "timeout": 600}],
     "thorough": [{"variant": "default", "cases": 2400000, "timeout": 3000}, {"variant": "checks", "cases": 240000, "timeout": 3000}],
-    "floors": {"any": {"matches_validated": 10000, "multimatches_validated": 2000, "patterns_with_matches": 3000, "multipatterns_with_matches": 1000}},
+    "floors": {"any": {"matches_validated": 10000, "multimatches_validated": 2000, "patterns_with_matches": 3000, "multipatterns_with_matches": 1000, "multipatterns_with_one_name_for_two_slots_of_a_node": 2000}},
 }
 PROPS["C04"] = {
     "rule": "cases: a random left pattern over LSym (repeated variables, free and bound slots, variables under binders) and a right pattern built from its top-level variables, free slots and verbatim "
@@ -226,9 +228,9 @@ PROPS["C04"] = {
             "equality). Scope guards on the real e-graph: no class with a redundant slot, instance represented beforehand, binders bound once. After one apply_rewrites the right-hand instance "
             "must be represented and equal to the planted one. Non-trivial = distinct planting with a repeated variable, a symmetric class or presence only through a union.",
     "assumptions": ["the planted substitution is known by construction; out-of-scope plantings are counted as skipped, not judged"],
-    "quick": [{"variant": "default", "cases": 40000, "timeout": 600}],
+    "quick": [{"variant": "default", "cases": 200000, "timeout": 600}],
     "thorough": [{"variant": "default", "cases": 4800000, "timeout": 3000}, {"variant": "checks", "cases": 480000, "timeout": 3000}],
-    "floors": {"any": {"plantings_judged": 3000, "plantings_with_repeated_variable": 200, "plantings_present_only_through_union": 800, "plantings_with_symmetric_class": 800}},
+    "floors": {"any": {"plantings_judged": 3000, "plantings_with_repeated_variable": 200, "plantings_present_only_through_union": 800, "plantings_with_symmetric_class": 800, "plantings_with_several_symmetric_children": 1000, "plantings_with_eight_or_more_arrangements": 300}},
 }
 
 PROPS["C03"] = {
@@ -241,7 +243,7 @@ PROPS["C03"] = {
                     "a fault invisible in both finite models for all sampled environments is not seen"],
     "quick": [{"variant": "default", "cases": 3000, "timeout": 900}, {"variant": "explanations", "cases": 720, "timeout": 900}],
     "thorough": [{"variant": "default", "cases": 40000, "params": {"case_timeout": 120}, "timeout": 3400}, {"variant": "checks", "cases": 3000, "params": {"case_timeout": 120}, "timeout": 3400}, {"variant": "explanations", "cases": 3000, "params": {"case_timeout": 120}, "timeout": 3400}],
-    "floors": {"any": {"runs": 300, "enode_evaluations": 200000, "root_evaluations": 10000, "runs_with_subst_rule": 30, "runs_with_conditional_rule": 100, "conditions_built_from_crate_combinators": 50, "runs_extraction_subst": 100}},
+    "floors": {"any": {"runs": 300, "enode_evaluations": 200000, "root_evaluations": 10000, "runs_with_subst_rule": 30, "runs_with_conditional_rule": 100, "conditions_built_from_crate_combinators": 50, "rules_built_through_RewriteT_and_union_instantiations": 200, "runs_extraction_subst": 100}},
 }
 PROPS["C14"] = {
     "rule": "cases: histories of 3-10 public calls over LArith with the product analysis (min size, constant value in F_7 with a modify hook that inserts the constant and unions, min depth): "
@@ -250,7 +252,7 @@ PROPS["C14"] = {
             "move up; min-size == own Bellman-Ford minimum == Extractor<AstSize> best cost; constant datum == model value under random environments; a class with a ground e-node has a constant; "
             "no merge conflict was recorded; work lists drained. Non-trivial = distinct history in which modify ran and a union or rewrite happened.",
     "assumptions": ["the analyses are semilattice joins (min / agreeing constants); make/merge/modify calls are counted by the analysis itself"],
-    "quick": [{"variant": "default", "cases": 6400, "timeout": 900}],
+    "quick": [{"variant": "default", "cases": 24000, "timeout": 900}],
     "thorough": [{"variant": "default", "cases": 120000, "params": {"case_timeout": 120}, "timeout": 3400}, {"variant": "checks", "cases": 8000, "params": {"case_timeout": 120}, "timeout": 3400}],
     "floors": {"any": {"class_checks": 20000, "const_vs_model": 20000, "modify_calls": 3000, "runs_where_union_lowered_a_datum": 100}},
 }
@@ -262,7 +264,7 @@ PROPS["C15"] = {
             ">= limit+1 applications; always <= limit+2 applications; NodeLimit => nodes > limit; Other(e) <=> the hook returned e; TimeLimit only with limit 0; report.egraph_nodes == node count. "
             "Non-trivial = distinct (setup, limits) run.",
     "assumptions": ["wall-clock time is never a verdict: the time limit is out of reach except in the limit-0 lane, where TimeLimit is always true"],
-    "quick": [{"variant": "default", "cases": 20000, "timeout": 900}],
+    "quick": [{"variant": "default", "cases": 60000, "timeout": 900}],
     "thorough": [{"variant": "default", "cases": 250000, "params": {"case_timeout": 120}, "timeout": 3400}, {"variant": "checks", "cases": 20000, "params": {"case_timeout": 120}, "timeout": 3400}],
     "floors": {"any": {"runs": 1500, "stop_saturated": 500, "stop_iteration_limit": 40, "stop_node_limit": 15, "stop_other": 60, "apply_rewrites_returned_false": 300, "saturated_matches_checked": 500}},
 }
@@ -289,7 +291,7 @@ PROPS["C07"] = {
             "must be the query up to an injective renaming; building, explaining, to_string and check() must not panic. Non-trivial = distinct history with a proof containing a congruence step "
             "or >= 2 explicit leaves.",
     "assumptions": ["the term-level rule formulations of DESIGN §3.6; get_syn_expr is used only as a renderer of the two sides of each step"],
-    "quick": [{"variant": "explanations", "cases": 7200, "timeout": 900}],
+    "quick": [{"variant": "explanations", "cases": 16000, "timeout": 900}],
     "thorough": [{"variant": "explanations", "cases": 720000, "params": {"case_timeout": 120}, "timeout": 3400}],
     "floors": {"any": {"proofs": 3000, "proof_nodes": 15000, "steps_congruence": 300, "steps_transitivity": 3000, "leaves_explicit": 3000, "leaves_by_rule": 60}},
 }
@@ -355,7 +357,7 @@ PROPS["C12"]["quick"].append({"variant": "default", "cases": 4000, "params": {"w
 PROPS["C12"]["thorough"].append({"variant": "default", "cases": 150000, "params": {"with_q": 1, "case_timeout": 60}, "timeout": 3000})
 
 # C14 sparse lane: handles are read for the first time after the last operation (see the sparse lanes above)
-PROPS["C14"]["quick"].append({"variant": "default", "cases": 6000, "params": {"sparse": 1}, "timeout": 600})
+PROPS["C14"]["quick"].append({"variant": "default", "cases": 16000, "params": {"sparse": 1}, "timeout": 600})
 PROPS["C14"]["thorough"].append({"variant": "default", "cases": 150000, "params": {"sparse": 1, "case_timeout": 120}, "timeout": 3000})
 
 # C20 big-batch lane: one rule matching 10k-40k terms in one call, replayed alone and concurrently (large match lists / maps)
